@@ -29,7 +29,7 @@ func checkC10(c *Ctx, r *Report) {
 	// way out of parseRule the literals first seen in the rule must have been handed to the declaration list (C11.a)
 	includeSome(r, "C10.d", func(sub *Report) { c11a(c, sub) }, "literal-tokens-flushed")
 	// the order of the names on one declaration line is layout too: each name's code is decided from its own tokens
-	includeSome(r, "C10.d", func(sub *Report) { c11e(c, sub); c11f(c, sub) }, "named-token-code", "declared-token-code")
+	includeSome(r, "C10.d", func(sub *Report) { c11e(c, sub); c11f(c, sub); c11g(c, sub) }, "named-token-code", "declared-token-code", "no-value-carried-between-names")
 }
 
 func kindConsts(c *Ctx) map[string]string {
